@@ -43,3 +43,7 @@ import LexVerif.Proof.WriteRadixFrac
 import LexVerif.Proof.WriteRadixIntText
 -- API-level pipeline model (fast path → moderate path → slow path) and its op handler `apf`
 import LexVerif.Model.Ops.ParseFloatAlgo
+-- big-integer slow path (slow.rs / bigint.rs): models, op handler, theorems
+import LexVerif.Model.Ops.Slow
+import LexVerif.Props.C01Slow
+import LexVerif.Props.C01SlowMain
